@@ -413,34 +413,54 @@ func factTransformer() {
 		qs = append(qs, leanStr(k))
 	}
 	emit("/-- F32a: kinds tested by isStructishTypedField, in source order (the first alone, the others by their element kind) -/\ndef structishKinds : List String := [%s]\n\n", strings.Join(qs, ", "))
-	before := false
-	found := false
+	// two TextUnmarshaler tests in maybeRecursivelyMangle: one on the field type (before the pointer / slice / array is
+	// stripped), one on the element type (after the strip, before the recursive Transformer is built); both `continue`
+	before, after, stripSeen := false, false, false
 	if fd := funcDecl(f, "maybeRecursivelyMangle"); fd != nil {
 		ast.Inspect(fd, func(n ast.Node) bool {
 			bs, ok := n.(*ast.BlockStmt)
 			if !ok {
 				return true
 			}
-			impl, strip := -1, -1
+			strip, build := -1, -1
+			var tests []int
 			for i, st := range bs.List {
-				if is, ok := st.(*ast.IfStmt); ok && strings.Contains(src(is.Cond), "ft.Implements(textMReflectType)") {
-					impl = i
+				if is, ok := st.(*ast.IfStmt); ok && src(is.Cond) == "ft.Implements(textMReflectType) || reflect.PointerTo(ft).Implements(textMReflectType)" &&
+					len(is.Body.List) == 1 && src(is.Body.List[0]) == "continue" {
+					tests = append(tests, i)
 				}
 				if ss, ok := st.(*ast.SwitchStmt); ok && src(ss.Tag) == "ft.Kind()" && strings.Contains(src(ss.Body), "ft = ft.Elem()") {
 					strip = i
 				}
+				if as, ok := st.(*ast.AssignStmt); ok && len(as.Lhs) == 1 && src(as.Lhs[0]) == "fieldTransformer" {
+					build = i
+				}
 			}
-			if impl >= 0 && strip >= 0 {
-				found = true
-				before = impl < strip
+			if strip >= 0 && build > strip {
+				stripSeen = true
+				for _, ti := range tests {
+					if ti < strip {
+						before = true
+					}
+					if ti > strip && ti < build {
+						after = true
+					}
+				}
 			}
 			return true
 		})
 	}
-	if !found {
-		miss("F32b", "transform/transformer.go maybeRecursivelyMangle: TextUnmarshaler test and the switch stripping pointer/array/slice")
+	if !stripSeen {
+		miss("F32b", "transform/transformer.go maybeRecursivelyMangle: the switch stripping pointer/array/slice followed by the recursive Transformer")
 	}
-	emit("/-- F32b: maybeRecursivelyMangle tests for TextUnmarshaler before stripping the pointer / slice (so `[]time.Time` is recursed into) -/\ndef textSkipBeforeStrip : Bool := %v\n\n", before)
+	if !before {
+		miss("F32b", "transform/transformer.go maybeRecursivelyMangle: TextUnmarshaler test (continue) on the field type, before the pointer/array/slice is stripped")
+	}
+	if !after {
+		miss("F32c", "transform/transformer.go maybeRecursivelyMangle: TextUnmarshaler test (continue) on the element type, after the strip and before the recursion (repair of D34)")
+	}
+	emit("/-- F32b: maybeRecursivelyMangle skips a field whose own type is a TextUnmarshaler (test before the pointer / slice / array is stripped) -/\ndef textSkipBeforeStrip : Bool := %v\n\n", before)
+	emit("/-- F32c: maybeRecursivelyMangle skips a field whose element type is a TextUnmarshaler (test repeated after the strip: `[]time.Time` is not recursed into) -/\ndef textSkipAfterStrip : Bool := %v\n\n", after)
 }
 
 func factSetSlice() {
